@@ -2,6 +2,7 @@ import MirVerif.Lemmas.Sem
 import MirVerif.Lemmas.SemExt
 import MirVerif.Lemmas.SemOv
 import MirVerif.Lemmas.BridgeC02
+import MirVerif.Lemmas.SemMem
 /-! # C02 — every (integer) instruction computes its documented result. Property theorems only. -/
 namespace MirVerif
 
@@ -123,6 +124,20 @@ theorem ext_table_meets_doc (k : Nat) (hk : k = 8 ∨ k = 16 ∨ k = 32) (signed
 /-- the source text of every macro body, operand getter and overflow/branch case whose meaning
 `macroSem`, `macroExt`, `macroNeg`, `interp*O` transcribe is the reviewed one -/
 theorem pinned_texts_unchanged : Gen.C02.pinned = Canon.C02.pinned := gen_pinned
+
+/-- Narrow memory types: a load of type `T` after a store of type `T` to the same address yields the
+documented extension of the stored value's low bits, and the store leaves the bytes above the
+stored width unchanged — for every previous memory content and every stored value. -/
+theorem narrow_ls (k : Nat) (hk : k = 8 ∨ k = 16 ∨ k = 32 ∨ k = 64) (signed : Bool) (old v : W64) :
+    loadExt k signed (storeTrunc k old v) = (if k = 64 then v else docExt k signed v) ∧
+    (storeTrunc k old v).toNat / 2 ^ k = (if k = 64 then 0 else old.toNat / 2 ^ k) := by
+  rcases hk with rfl | rfl | rfl | rfl
+  · simpa using narrow8 signed old v
+  · simpa using narrow16 signed old v
+  · simpa using narrow32 signed old v
+  · have := v.isLt
+    simp only [loadExt, storeTrunc, if_true]
+    exact ⟨trivial, Nat.div_eq_of_lt this⟩
 
 /-- non-vacuity: a concrete instruction instance where the result is defined and non-trivial -/
 example : docSem .div true 0xFFFFFFFF_80000000 0x1_00000002 = some 0xFFFFFFFF_C0000000 := by decide
